@@ -9,8 +9,25 @@ import (
 
 	"github.com/moov-io/ach"
 
+	"verifharness/internal/gen"
 	"verifharness/internal/rng"
 )
+
+// genValidFile: a valid file from the shared generator; the seed also picks the content options.
+func genValidFile(fc fileCase) *ach.File {
+	r := rng.New(fc.Seed)
+	b := fc.Seed >> 8
+	var f *ach.File
+	if b&0xf == 0 {
+		f = gen.ADVFile(r)
+	} else {
+		f = gen.File(r, gen.Opts{IAT: b&16 != 0, Returns: b&32 != 0, NOC: b&64 != 0, Addenda: b&128 != 0, Offset: b&256 != 0, NonASCII: b&512 != 0 && b&1024 != 0})
+	}
+	if !fc.NoOpts && fc.Kind == "gen" {
+		f.SetValidation(optsFromMask(fc.Opts))
+	}
+	return f
+}
 
 type fixture struct {
 	kind string // reader | json
@@ -77,6 +94,10 @@ func genFileCase(r *rng.R, fx []fixture) fileCase {
 	case pick < 72 && len(js) > 0:
 		f := rng.Pick(r, js)
 		return fileCase{Kind: "json", Name: f.name, TextHex: hex.EncodeToString(f.data), Opts: randMask(r), NoOpts: r.Chance(1, 2)}
+	case pick < 82:
+		return fileCase{Kind: "gen", Seed: r.U64() | 1, Opts: randMask(r), NoOpts: r.Chance(1, 2)}
+	case pick < 88:
+		return fileCase{Kind: "gentext", Seed: r.U64() | 1, Opts: randMask(r), NoOpts: r.Chance(1, 2)}
 	default:
 		return fileCase{Kind: "api", Seed: r.U64() | 1, Opts: randMask(r), NoOpts: r.Chance(1, 3)}
 	}
